@@ -236,3 +236,282 @@ Section Transfer.
         * intros p [].
   Qed.
 End Transfer.
+
+(* ---- the maps the walk computes, position by position ---- *)
+Definition reset_at (targets : list label) (a : op) (kv : kmap) : kmap :=
+  match kind a with KLabel l => if existsb (N.eqb l) targets then [] else kv | _ => kv end.
+
+Fixpoint walk_kvs (targets : list label) (kv : kmap) (as_ : list op) : list kmap :=
+  match as_ with
+  | [] => []
+  | a :: t => let kv0 := reset_at targets a kv in kv0 :: walk_kvs targets (transfer_kv targets kv0 a) t
+  end.
+
+Lemma cp_walk_spec targets : forall bs as_ kv i, cp_walk targets kv bs as_ i = [] ->
+  length bs = length as_ /\
+  forall k b a, nth_error bs k = Some b -> nth_error as_ k = Some a ->
+    exists kvk, nth_error (walk_kvs targets kv as_) k = Some kvk /\
+      form_eqb kvk (nf kvk b) (nf kvk a) = true /\ no_zero_one_defs a = true /\ no_zero_one_defs b = true.
+Proof.
+  induction bs as [|b bt IH]; intros as_ kv i H; destruct as_ as [|a at_]; cbn [cp_walk] in H; try discriminate.
+  - split; [reflexivity|]. intros k b a Hb. destruct k; discriminate.
+  - fold (reset_at targets a kv) in H. set (kv0 := reset_at targets a kv) in *.
+    destruct (andb (form_eqb kv0 (nf kv0 b) (nf kv0 a)) (andb (no_zero_one_defs a) (no_zero_one_defs b))) eqn:E; [|discriminate].
+    destruct (IH _ _ _ H) as [Hl Hk]. split; [cbn; rewrite Hl; reflexivity|].
+    intros k b' a' Hb Ha. destruct k as [|k]; cbn in Hb, Ha.
+    + injection Hb as <-. injection Ha as <-. exists kv0. split; [reflexivity|].
+      apply andb_true_iff in E. destruct E as [E1 E2]. apply andb_true_iff in E2. tauto.
+    + cbn [walk_kvs nth_error]. fold kv0. exact (Hk k b' a' Hb Ha).
+Qed.
+
+Lemma walk_kvs_next targets : forall as_ kv k kvk a a', nth_error (walk_kvs targets kv as_) k = Some kvk ->
+  nth_error as_ k = Some a -> nth_error as_ (S k) = Some a' ->
+  nth_error (walk_kvs targets kv as_) (S k) = Some (reset_at targets a' (transfer_kv targets kvk a)).
+Proof.
+  induction as_ as [|x t IH]; intros kv k kvk a a' Hk Ha Ha'; [destruct k; discriminate|].
+  destruct k as [|k]; cbn in Ha, Ha'.
+  - injection Ha as <-. cbn in Hk. injection Hk as <-. destruct t as [|y t']; [discriminate|]. cbn in Ha'. injection Ha' as <-.
+    reflexivity.
+  - cbn [walk_kvs nth_error] in *. eapply IH; eassumption.
+Qed.
+
+Lemma walk_kvs_target targets : forall as_ kv k a l, nth_error as_ k = Some a -> kind a = KLabel l ->
+  existsb (N.eqb l) targets = true -> nth_error (walk_kvs targets kv as_) k = Some [].
+Proof.
+  induction as_ as [|x t IH]; intros kv k a l Ha Hk Ht; [destruct k; discriminate|].
+  destruct k as [|k]; cbn in Ha.
+  - injection Ha as <-. cbn. unfold reset_at. rewrite Hk, Ht. reflexivity.
+  - cbn [walk_kvs nth_error]. eapply IH; eassumption.
+Qed.
+
+(* ---- labels are the same in both programs ---- *)
+Lemma nf_set_not_same kv d v k : nf_set kv d v <> FSame k.
+Proof. unfold nf_set. destruct (sval_eqb _ _); discriminate. Qed.
+
+Lemma nf_fsame kv o k : nf kv o = FSame k -> kind o = k /\
+  match k with KLabel _ | KCall _ | KRet | KJmpAddr _ => True | _ => False end.
+Proof.
+  unfold nf. destruct (kind o) as [d s| |l|l|l c|l| |r|opc args] eqn:Hk; intros H;
+    try (injection H as <-; split; [reflexivity|exact I]); try discriminate.
+  - exfalso. eapply nf_set_not_same. exact H.
+  - destruct (resolve_reg kv c) as [[|p]|?|?]; discriminate.
+  - exfalso. destruct (decode (KOther opc args)) as [[op d x y|d a|d n]|]; try discriminate.
+    + unfold nf_alu in H.
+      destruct (resolve kv x) as [lx|rx|tx]; destruct (resolve kv y) as [ly|ry|ty];
+        try destruct (fold_const op _ _); try destruct (identity op _ _); try discriminate;
+        eapply nf_set_not_same; exact H.
+    + destruct (resolve_reg kv a); try discriminate. eapply nf_set_not_same. exact H.
+    + eapply nf_set_not_same. exact H.
+Qed.
+
+Lemma form_eqb_same_l kv k f : form_eqb kv (FSame k) f = true -> f = FSame k.
+Proof. destruct f; cbn; try discriminate. intros H. apply kind_eqb_eq in H. subst. reflexivity. Qed.
+Lemma form_eqb_same_r kv k f : form_eqb kv f (FSame k) = true -> f = FSame k.
+Proof. destruct f; cbn; try discriminate. intros H. apply kind_eqb_eq in H. subst. reflexivity. Qed.
+
+Lemma accepted_same_label kv b a l : form_eqb kv (nf kv b) (nf kv a) = true -> is_label l b = is_label l a.
+Proof.
+  intros H. unfold is_label.
+  destruct (kind b) as [| |lb| | | | | |] eqn:Hb.
+  3:{ assert (Hnb : nf kv b = FSame (KLabel lb)) by (unfold nf; rewrite Hb; reflexivity).
+      rewrite Hnb in H. apply form_eqb_same_l in H. destruct (nf_fsame _ _ _ H) as [Ha _]. rewrite Ha. reflexivity. }
+  all: destruct (kind a) as [| |la| | | | | |] eqn:Ha; try reflexivity;
+    assert (Hna : nf kv a = FSame (KLabel la)) by (unfold nf; rewrite Ha; reflexivity);
+    rewrite Hna in H; apply form_eqb_same_r in H; destruct (nf_fsame _ _ _ H) as [Hb' _]; congruence.
+Qed.
+
+Lemma label_index_spec ops l j : label_index ops l = Some j ->
+  exists o, nth_error ops j = Some o /\ kind o = KLabel l.
+Proof.
+  unfold label_index. revert j. induction ops as [|x t IH]; intros j H; [discriminate|]. cbn [find_index] in H.
+  destruct (is_label l x) eqn:E.
+  - injection H as <-. exists x. split; [reflexivity|]. unfold is_label in E. destruct (kind x); try discriminate.
+    apply N.eqb_eq in E. subst. reflexivity.
+  - destruct (find_index (is_label l) t) as [j'|] eqn:Ej; [|discriminate]. cbn in H. injection H as <-.
+    destruct (IH j' eq_refl) as (o & Ho & Hk). exists o. split; assumption.
+Qed.
+
+Lemma jump_target_in ops i o l : nth_error ops i = Some o -> (kind o = KJump l \/ exists c, kind o = KJnz l c) ->
+  existsb (N.eqb l) (jump_targets ops) = true.
+Proof.
+  intros Hn Hk. apply existsb_exists. exists l. split; [|apply N.eqb_refl].
+  unfold jump_targets. apply in_flat_map. exists o. split; [eapply nth_error_In; exact Hn|].
+  destruct Hk as [->|[c ->]]; left; reflexivity.
+Qed.
+
+Section EndToEnd.
+  Variable M : Type.
+  Variable semA : N -> list N -> M -> option (list val * M).
+  Variable call_sem : label -> list val -> M -> option (list val * M).
+  Variable before after : list op.
+  Hypothesis Hacc : cp_walk (jump_targets after) [] before after 0 = [].
+
+  Let targets := jump_targets after.
+  Let kvs := walk_kvs targets [] after.
+
+  Definition Inv (st : state M) : Prop :=
+    forall kvk, nth_error kvs (pc st) = Some kvk -> holds kvk (rf st).
+
+  Lemma same_labels l : label_index before l = label_index after l.
+  Proof.
+    destruct (cp_walk_spec _ _ _ _ _ Hacc) as [Hl Hk].
+    unfold label_index. apply find_index_pointwise. intros i.
+    destruct (nth_error before i) as [b|] eqn:Hb; destruct (nth_error after i) as [a|] eqn:Ha; cbn.
+    - destruct (Hk i b a Hb Ha) as (kvk & _ & Hf & _). f_equal. eapply accepted_same_label. exact Hf.
+    - exfalso. apply nth_error_None in Ha. assert (i < length before)%nat by (apply nth_error_Some; rewrite Hb; discriminate). lia.
+    - exfalso. apply nth_error_None in Hb. assert (i < length after)%nat by (apply nth_error_Some; rewrite Ha; discriminate). lia.
+    - reflexivity.
+  Qed.
+
+  (* both programs take the same step *)
+  Lemma same_step st : Inv st -> bounded (rf st) ->
+    stepA M semA call_sem before st = stepA M semA call_sem after st.
+  Proof.
+    intros HI Hb. destruct (cp_walk_spec _ _ _ _ _ Hacc) as [Hl Hk].
+    destruct (nth_error before (pc st)) as [b|] eqn:Hnb; destruct (nth_error after (pc st)) as [a|] eqn:Hna.
+    - destruct (Hk _ b a Hnb Hna) as (kvk & Hkv & Hf & Hoa & Hob).
+      rewrite (stepA_opstep _ _ _ _ _ _ Hnb), (stepA_opstep _ _ _ _ _ _ Hna).
+      assert (E : opstep M semA call_sem (label_index before) b st = opstep M semA call_sem (label_index after) b st).
+      { unfold opstep, jmp. destruct (kind b); try reflexivity; rewrite same_labels; reflexivity. }
+      rewrite E. exact (cp_position_sound M semA call_sem (label_index after) kvk b a st (HI kvk Hkv) Hb Hoa Hob Hf).
+    - exfalso. apply nth_error_None in Hna. assert (pc st < length before)%nat by (apply nth_error_Some; rewrite Hnb; discriminate). lia.
+    - exfalso. apply nth_error_None in Hnb. assert (pc st < length after)%nat by (apply nth_error_Some; rewrite Hna; discriminate). lia.
+    - unfold stepA. rewrite Hnb, Hna. reflexivity.
+  Qed.
+
+  Lemma call_frame vs rf x : ~ In x call_out_regs -> write_list call_out_regs vs rf x = rf x.
+  Proof. apply write_list_other. Qed.
+
+  Lemma zero_one_not_out : ~ In R_ZERO call_out_regs /\ ~ In R_ONE call_out_regs.
+  Proof.
+    assert (H : forallb (fun r => negb (orb (N.eqb r R_ZERO) (N.eqb r R_ONE))) call_out_regs = true) by (vm_compute; reflexivity).
+    rewrite forallb_forall in H. split; intros Hin; specialize (H _ Hin); discriminate.
+  Qed.
+
+  Local Opaque call_out_regs call_in_regs const_regs.
+
+  (* the map at the next position holds after the step *)
+  Lemma inv_step st st' : Inv st -> bounded (rf st) ->
+    stepA M semA call_sem after st = Some st' -> Inv st'.
+  Proof.
+    intros HI Hb Hs. destruct (cp_walk_spec _ _ _ _ _ Hacc) as [Hl Hk]. unfold Inv in *. unfold kvs in *.
+    destruct (nth_error after (pc st)) as [a|] eqn:Hna; [|unfold stepA in Hs; rewrite Hna in Hs; discriminate].
+    assert (Hlt : (pc st < length before)%nat) by (rewrite Hl; apply nth_error_Some; rewrite Hna; discriminate).
+    destruct (nth_error before (pc st)) as [b|] eqn:Hnb; [|apply nth_error_None in Hnb; lia].
+    destruct (Hk _ b a Hnb Hna) as (kvk & Hkv & Hf & Hoa & Hob).
+    pose proof (HI kvk Hkv) as Hh.
+    rewrite (stepA_opstep _ _ _ _ _ _ Hna) in Hs.
+    assert (Hdefs : forall r, In r (defs a ++ cdefs a) -> r <> R_ZERO /\ r <> R_ONE).
+    { intros r Hr. unfold no_zero_one_defs in Hoa. apply andb_true_iff in Hoa. destruct Hoa as [Hoa _].
+      rewrite forallb_forall in Hoa. rewrite app_assoc in Hoa. specialize (Hoa r (in_or_app _ _ _ (or_introl Hr))).
+      apply negb_true_iff, orb_false_iff in Hoa. destruct Hoa as [A B]. apply N.eqb_neq in A, B. tauto. }
+    (* jumps to a label: the map there is empty *)
+    assert (Hjump : forall l, (kind a = KJump l \/ exists c, kind a = KJnz l c) ->
+              forall j, label_index after l = Some j -> rf st' = rf st -> pc st' = j -> Inv st').
+    { intros l Hkj j Hj Hrf Hpc kv' Hkv'. unfold kvs in Hkv'. rewrite Hpc in Hkv'.
+      destruct (label_index_spec _ _ _ Hj) as (o & Ho & Hko).
+      rewrite (walk_kvs_target targets after [] j o l Ho Hko (jump_target_in _ _ _ _ Hna Hkj)) in Hkv'.
+      injection Hkv' as <-. rewrite Hrf. eapply holds_sub; [exact Hh|]. intros p []. }
+    (* fall-through: transfer, then possibly reset *)
+    assert (Hfall : pc st' = S (pc st) -> holds (transfer_kv targets kvk a) (rf st') -> Inv st').
+    { intros Hpc Ht kv' Hkv'. unfold kvs in Hkv'. rewrite Hpc in Hkv'.
+      destruct (nth_error after (S (pc st))) as [a'|] eqn:Hna'.
+      - rewrite (walk_kvs_next targets after [] _ kvk a a' Hkv Hna Hna') in Hkv'. injection Hkv' as <-.
+        unfold reset_at. destruct (kind a'); try exact Ht. destruct (existsb _ _); [|exact Ht].
+        eapply holds_sub; [exact Ht|]. intros p [].
+      - exfalso. assert (Hlen : forall l kv, length (walk_kvs targets kv l) = length l).
+        { induction l as [|x t IH]; intros kv; cbn; [reflexivity|]. rewrite IH. reflexivity. }
+        apply nth_error_None in Hna'.
+        assert (S (pc st) < length (walk_kvs targets [] after))%nat by (apply nth_error_Some; rewrite Hkv'; discriminate).
+        rewrite Hlen in H. lia. }
+    assert (Hgen : (match kind a with KMove _ _ | KNoop | KOther _ _ => True | _ => False end) ->
+              holds (transfer_general kvk a) (rf st')).
+    { intros Hkd. exact (transfer_general_sound M semA call_sem (label_index after) kvk a st st' Hh Hb Hoa Hdefs Hs Hkd). }
+    assert (Htk : forall X, X = transfer_kv targets kvk a -> holds X (rf st') -> holds (transfer_kv targets kvk a) (rf st'))
+      by (intros X ->; exact (fun h => h)).
+    pose proof Hs as Hs0. unfold opstep in Hs.
+    destruct (kind a) as [d s| |l|l|l c|l| |r|opc args] eqn:Hka.
+    - apply Hfall; [unfold nxt in Hs; injection Hs as <-; reflexivity|].
+      apply (Htk (transfer_general kvk a)); [unfold transfer_kv; rewrite Hka; reflexivity | apply Hgen; exact I].
+    - apply Hfall; [unfold nxt in Hs; injection Hs as <-; reflexivity|].
+      apply (Htk (transfer_general kvk a)); [unfold transfer_kv; rewrite Hka; reflexivity | apply Hgen; exact I].
+    - unfold nxt in Hs. injection Hs as <-. apply Hfall; [reflexivity|]. cbn [rf].
+      unfold transfer_kv. rewrite Hka.
+      destruct (existsb (N.eqb l) targets); [eapply holds_sub; [exact Hh|]; intros p [] | exact Hh].
+    - unfold jmp in Hs. destruct (label_index after l) as [j|] eqn:Hj; [|discriminate]. injection Hs as <-.
+      eapply (Hjump l); [left; reflexivity | exact Hj | reflexivity | reflexivity].
+    - destruct (N.eqb (rf st c) 0).
+      + unfold nxt in Hs. injection Hs as <-. apply Hfall; [reflexivity|]. unfold transfer_kv. rewrite Hka. exact Hh.
+      + unfold jmp in Hs. destruct (label_index after l) as [j|] eqn:Hj; [|discriminate]. injection Hs as <-.
+        eapply (Hjump l); [right; eexists; reflexivity | exact Hj | reflexivity | reflexivity].
+    - destruct (call_sem l (map (rf st) call_in_regs) (mem st)) as [[vs m']|]; [|discriminate].
+      unfold nxt in Hs. injection Hs as Hst.
+      apply Hfall; [rewrite <- Hst; reflexivity|]. rewrite <- Hst. cbn [rf]. unfold transfer_kv. rewrite Hka.
+      destruct Hh as (Hz & Ho & _). destruct zero_one_not_out as [Z O].
+      split; [etransitivity; [exact (write_list_other _ _ _ _ Z) | exact Hz]|].
+      split; [etransitivity; [exact (write_list_other _ _ _ _ O) | exact Ho]|]. intros r0 v [].
+    - discriminate.
+    - discriminate.
+    - destruct (decode (KOther opc args)) as [i|] eqn:Hd.
+      + assert (Hpc : pc st' = S (pc st)).
+        { destruct i as [op d x y|d a0|d n]; [destruct (exec64 _ _ _ _); [|discriminate]| |];
+            unfold nxt in Hs; injection Hs as <-; reflexivity. }
+        apply Hfall; [exact Hpc|].
+        apply (Htk (transfer_general kvk a)); [unfold transfer_kv; rewrite Hka, Hd; reflexivity | apply Hgen; exact I].
+      + destruct (semA opc (map (argval (rf st)) args) (mem st)) as [[vs m']|] eqn:Hsem; [|discriminate].
+        unfold nxt in Hs. injection Hs as <-. apply Hfall; [reflexivity|]. cbn [rf].
+        assert (Hw : holds (kill_all kvk (written a)) (write_list (defs a ++ cdefs a) vs (rf st))).
+        { eapply holds_after_write; [exact Hh| | |].
+          - intros x Hx. apply write_list_other. unfold written in Hx. rewrite Hka, Hd in Hx. exact Hx.
+          - unfold written. rewrite Hka, Hd. intros E. destruct (Hdefs _ E) as [X _]. congruence.
+          - unfold written. rewrite Hka, Hd. intros E. destruct (Hdefs _ E) as [_ X]. congruence. }
+        unfold transfer_kv. rewrite Hka, Hd.
+        destruct (N.eqb opc 12).
+        * eapply holds_sub; [exact Hw|]. intros p Hp. apply filter_In in Hp. destruct Hp as [Hp _]. exact Hp.
+        * destruct (is_org_stop opc).
+          -- eapply holds_sub; [exact Hw|]. intros p [].
+          -- assert (Hkd : match kind a with KMove _ _ | KNoop | KOther _ _ => True | _ => False end) by (rewrite Hka; exact I).
+             exact (transfer_general_sound M semA call_sem (label_index after) kvk a st _ Hh Hb Hoa Hdefs Hs0 Hkd).
+  Qed.
+End EndToEnd.
+
+Lemma op_eqb_eq a b : op_eqb a b = true -> a = b.
+Proof.
+  unfold op_eqb. intros H. repeat (apply andb_true_iff in H; destruct H as [? H]).
+  destruct a as [u d c s k], b as [u' d' c' s' k']. cbn in *.
+  repeat match goal with X : list_eqb N.eqb _ _ = true |- _ => apply list_eqb_N in X end.
+  apply kind_eqb_eq in H. match goal with X : Bool.eqb _ _ = true |- _ => apply Bool.eqb_prop in X end.
+  subst. reflexivity.
+Qed.
+
+Definition res_bounded {M} (r : result M) : Prop :=
+  match r with Running s => bounded (rf s) | Stopped s => bounded (rf s) end.
+
+(* constant_propagate validator, end to end: an accepted (enter, exit) pair runs identically on the
+   machine with the interpreted ALU fragment, from every entry state in which $zero = 0 and
+   $one = 1, as long as register values stay below 2^64 along the run (as they do on the VM). *)
+Theorem cp_validator_sound M semA call_sem before after : cp_check before after = [] ->
+  forall n (st : state M), pc st = 0%nat -> rf st R_ZERO = 0 -> rf st R_ONE = 1 ->
+  (forall k, (k <= n)%nat -> res_bounded (runA M semA call_sem after k st)) ->
+  runA M semA call_sem before n st = runA M semA call_sem after n st.
+Proof.
+  unfold cp_check. destruct (has_jmpaddr_b before).
+  { destruct (list_eqb op_eqb before after) eqn:E; [|discriminate]. intros _ n st _ _ _ _.
+    rewrite (list_eqb_eq op_eqb op_eqb_eq _ _ E). reflexivity. }
+  intros Hacc.
+  assert (Hgen : forall n st, Inv M after st ->
+            (forall k, (k <= n)%nat -> res_bounded (runA M semA call_sem after k st)) ->
+            runA M semA call_sem before n st = runA M semA call_sem after n st).
+  { induction n as [|n IH]; intros st HI Hbd; [reflexivity|].
+    assert (Hb : bounded (rf st)) by (exact (Hbd 0%nat ltac:(lia))).
+    cbn [runA]. rewrite (same_step M semA call_sem before after Hacc st HI Hb).
+    destruct (stepA M semA call_sem after st) as [st'|] eqn:Hs; [|reflexivity].
+    apply IH.
+    - eapply inv_step; eassumption.
+    - intros k Hk. specialize (Hbd (S k) ltac:(lia)). cbn [runA] in Hbd. rewrite Hs in Hbd. exact Hbd. }
+  intros n st Hpc Hz Ho Hbd. apply Hgen; [|exact Hbd].
+  intros kvk Hk. rewrite Hpc in Hk. destruct after as [|a t]; [discriminate|]. cbn in Hk. injection Hk as <-.
+  assert (E : forall p, In p (reset_at (jump_targets (a :: t)) a []) -> False).
+  { unfold reset_at. destruct (kind a); try (intros p []). destruct (existsb _ _); intros p []. }
+  split; [exact Hz|]. split; [exact Ho|]. intros r v Hin. destruct (E _ Hin).
+Qed.
